@@ -171,6 +171,9 @@ class Escape:
             for k, p in g:
                 if p is True and k == "(%s < %s.size())" % (idx, obj):
                     return True
+                m_ = re.match(r"^\(%s < (\w+)\)$" % re.escape(idx), k) if p is True else None
+                if m_ and self._is_hoisted_size(f, m_.group(1), obj):
+                    return True
                 if idx.isdigit():
                     # size() > n, size() >= n+1, !empty() for n == 0
                     if p is True and k == "(%s < %s.size())" % (idx, obj):
@@ -179,6 +182,28 @@ class Escape:
                         return True
             return False
         return False
+
+    SHRINKERS = ("clear", "pop_back", "erase", "resize", "assign", "swap", "operator=", "shrink_to_fit", "extract")
+
+    def _is_hoisted_size(self, f, name, obj):
+        """`name` is a local defined once as obj.size() and obj is not shrunk anywhere in the function."""
+        from .rules.common import local_init, local_writes
+        try:
+            init, v = local_init(f, name, must=False)
+        except Exception:
+            return False
+        if init is None or init < 0 or v is None or local_writes(f, name):
+            return False
+        if f.text(init) != "%s.size()" % obj:
+            return False
+        for c in f.calls():
+            n = f.nodes[c]
+            if "recv" in n and f.text(n["recv"]) == obj and n.get("cname") in self.SHRINKERS:
+                return False
+        for b in f.all("bin"):
+            if f.nodes[b].get("op") == "=" and f.text(f.nodes[b]["l"]) == obj:
+                return False
+        return True
 
     # ------------------------------------------------------------ propagation
     def caught_at(self, f, node, exc):
